@@ -112,12 +112,28 @@ class Cluster:
     def push(self, gap):
         t = T0 if self.newest is None else self.newest + H(gap)
         v = self.next_value(gap)
+        self.last_payload = payload_value(self.cfg.get("payload", "scalar"), v)
         try:
-            self.out.push_data(payload_value(self.cfg.get("payload", "scalar"), v), t)
+            self.out.push_data(self.last_payload, t)
         except Exception as e:  # noqa - a publication with a strictly newer time must always be accepted
             self.viol.append(("push", dict(kind="publication_failed", error=type(e).__name__), f"push at {float(hrs(t))} failed: {type(e).__name__}: {str(e)[:120]}"))
         self.newest, self.last_gap = t, gap
         self.source.publish(hrs(t), Fr(v))  # Fr(float) is exact
+
+    def push_alias(self):
+        """history only: the array object published last is published again for a newer time (half a lattice step ahead). The output
+        must refuse it (it shares memory with retained data) and nothing may have changed: the newest publication is still the old one.
+        Once per path; if the slot accepts it, the path has left the domain and is dropped."""
+        self.alias_used = True
+        step = Fr(self.cfg.get("lattice", Fr(1, 2)))
+        self.push(1)  # a regular publication first, in the same transition (a snapshot copy would separate the array from the retained data)
+        try:
+            self.out.push_data(self.last_payload, self.newest + H(step))
+            self.dead = True
+        except E.FinamDataError:
+            pass
+        except Exception:  # noqa
+            self.dead = True
 
     def on_get(self, time, target):
         if self.cur_pull is None or isinstance(target, fm.Adapter):
@@ -247,6 +263,8 @@ class Cluster:
                 t += step
             if cfg.get("back_requests") and self.last[k] is not None and self.last[k] - step >= 0 and not getattr(self, "went_back", {}).get(k) == self.last[k]:
                 ev.append(("pull_back", k, self.last[k] - step))
+        if cfg.get("alias_pushes") and not getattr(self, "alias_used", False) and cfg.get("payload", "scalar") != "scalar" and new + 1 - self.lag_floor() <= W:
+            ev.append(("push_alias",))
         return ev
 
     def apply(self, ev):
@@ -255,6 +273,8 @@ class Cluster:
             self.push(ev[1])
         elif ev[0] == "pull_back":
             self.pull_back(ev[1], Fr(ev[2]))
+        elif ev[0] == "push_alias":
+            self.push_alias()
         else:
             self.pull(ev[1], Fr(ev[2]))
 
@@ -277,7 +297,7 @@ class Cluster:
         # Info._time (the declared start time of a slot) is only read while connecting; Output._time always equals the newest retained entry: neither is part of the post-connect state.
         # Other absolute times (start-time clamp of delay adapters) stop mattering once older than window + total delay + largest gap.
         cut = (Fr(self.cfg.get("window", 4)) + Fr(self.cfg.get("dmax", 0)) + 3) * time_unit_seconds()
-        return fingerprint((self.out, self.inps, self.ads, self.source, self.links, self.last_gap, sorted((k, None if v is None else v - hrs(self.newest)) for k, v in self.req_src.items()), [None if l is None else l - hrs(self.newest) for l in self.last]), tnorm=(self.newest, float(cut)), skip_keys=frozenset(["_time"]))
+        return fingerprint((getattr(self, "alias_used", False), self.out, self.inps, self.ads, self.source, self.links, self.last_gap, sorted((k, None if v is None else v - hrs(self.newest)) for k, v in self.req_src.items()), [None if l is None else l - hrs(self.newest) for l in self.last]), tnorm=(self.newest, float(cut)), skip_keys=frozenset(["_time"]))
 
 
 def explore(cfg, max_depth=None, max_states=200000, max_seconds=None):
